@@ -16,15 +16,19 @@ package main
 
 import (
 	"bytes"
+	"context"
 	"encoding/binary"
 	"errors"
 	"fmt"
 	"io"
 	"log"
 	"net"
+	"os"
+	"strconv"
 	"sort"
 	"strings"
 	"sync"
+	"syscall"
 	"time"
 
 	"github.com/VKCOM/statshouse/internal/balancer"
@@ -687,14 +691,27 @@ type sink struct {
 	cond    *sync.Cond
 	key     string
 	partial int // connections that ended inside a frame
+	limit   int // >= 0: stop reading (stall) once the first connection has delivered this many frames
 }
 
-func newSink(key string) *sink {
-	ln, err := net.Listen("tcp", "127.0.0.1:0")
+// newSink: rcvbuf > 0 fixes SO_RCVBUF of the accepted connections (inherited from the listener; switches receive-buffer
+// auto-tuning off), so that what can be in flight towards a sink that does not read is bounded by the sender's send buffer.
+func newSink(key string, rcvbuf int) *sink {
+	lc := net.ListenConfig{}
+	if rcvbuf > 0 {
+		lc.Control = func(_, _ string, c syscall.RawConn) error {
+			var serr error
+			if err := c.Control(func(fd uintptr) { serr = syscall.SetsockoptInt(int(fd), syscall.SOL_SOCKET, syscall.SO_RCVBUF, rcvbuf) }); err != nil {
+				return err
+			}
+			return serr
+		}
+	}
+	ln, err := lc.Listen(context.Background(), "tcp", "127.0.0.1:0")
 	if err != nil {
 		panic(err)
 	}
-	s := &sink{ln: ln, key: key}
+	s := &sink{ln: ln, key: key, limit: -1}
 	s.cond = sync.NewCond(&s.mu)
 	go func() {
 		for {
@@ -769,6 +786,10 @@ func (s *sink) serve(id int, c net.Conn) {
 		}
 		s.mu.Lock()
 		s.frames = append(s.frames, frameRec{conn: id, payload: body, at: time.Now()})
+		if id == 0 && s.limit >= 0 && len(s.frames) >= s.limit {
+			s.stalled = true
+			s.limit = -1
+		}
 		s.mu.Unlock()
 	}
 }
@@ -819,20 +840,22 @@ func runL2(seed uint64, idx int, o *out, tier string) {
 	thr := c.BufferLen * 20 / 100
 	// 0 idle tail, 1 upstream down then up (buffers fill, drops), 2 connection resets under traffic, 3 NewEgress as is,
 	// 4 upstream resets the idle connection, then a multi-packet batch arrives (write fails on the FIRST packet of the batch),
-	// 5 upstream stops reading until the write deadline fires inside a batch of large packets (write fails in the MIDDLE).
+	// 5 one batch of large packets blocks in the kernel buffers of an upstream that reads m frames and then resets the
+	//   connection (write fails in the MIDDLE / towards the END of the batch, after part of it was accepted by the kernel).
 	// The scenario rotates with the live-trial index so that every run of >= 128 cases covers all of them several times.
 	scen := []int{0, 4, 1, 5, 2, 4, 0, 3, 4, 1, 5, 2, 0, 4, 5, 1}[(idx/8)%16]
 	o.Stat(fmt.Sprintf("l2.scenario.%d", scen), 1)
 	cfg := balancer.EgressConfig{HostTag: hostTag, ReconnectDelay: 50 * time.Millisecond, DialTimeout: 5 * time.Second}
-	if scen == 5 {
-		cfg.WriteTimeout = 3 * time.Second // sendLoop keeps the deadline between 1 s and 3 s ahead (writeTimeoutAccuracy = 2 s)
-	}
 	var e *balancer.Egress
 	var sinks [2]*sink
 	var key string
 	mkSinks := func() {
 		for i := range sinks {
-			sinks[i] = newSink(key)
+			rb := 0
+			if scen == 5 {
+				rb = 4096
+			}
+			sinks[i] = newSink(key, rb)
 		}
 	}
 	// the reconnect key only depends on the host tag
@@ -845,7 +868,7 @@ func runL2(seed uint64, idx int, o *out, tier string) {
 		}
 	}()
 	switch scen {
-	case 1:
+	case 1, 5:
 		e = balancer.VerifNewLive(cfg, nil, nil) // no resolved address yet: both senders keep retrying
 	case 3:
 		cfg.Address = sinks[0].addr() + "," + sinks[1].addr()
@@ -933,26 +956,31 @@ func runL2(seed uint64, idx int, o *out, tier string) {
 			burst(k2)
 		}
 	case 5:
-		// the upstream stops reading; large packets fill the kernel buffers, the sender blocks inside a batch until its
-		// write deadline fires (partial write). Nothing is reset: everything the kernel accepted is read by the sink later,
-		// so the accounting is exact.
-		for _, s := range sinks {
-			s.setStalled(true)
-		}
+		// everything is accepted while the upstream is unresolved, so the primary sender's first write is ONE batch of k large
+		// packets (7 … 12 MB, more than a loopback connection buffers). The upstream reads m frames, stops reading; the sender
+		// blocks inside the batch; then the upstream resets the connection. What the kernel had accepted beyond the m frames
+		// is lost in TCP (bounded by the send buffer limit); the packet being written is given up; the rest must follow once.
 		k := r.Range(c.BufferLen*3/4, c.BufferLen-2) // fits the primary buffer: no failover, no drops
-		size := r.Range(50000, 60000)              // 7.5 … 12 MB: more than the kernel buffers of a loopback connection hold
-		desc = append(desc, fmt.Sprintf("upstream-stalled burst=%d x %d bytes until write deadline", k, size))
+		size := r.Range(50000, 60000)
+		m := r.Range(1, 6)
+		if r.Bool() {
+			m = k/2 + r.Range(-10, 10)
+		}
+		desc = append(desc, fmt.Sprintf("unresolved burst=%d x %d bytes ; resolve ; upstream reads %d frames, stalls, resets", k, size, m))
 		for j := 0; j < k; j++ {
 			push(size + r.Range(0, 500))
 		}
-		// the sender gives up the first connection at its write deadline and reconnects: then the upstream reads again
-		waitRe := time.Now().Add(timerBudget + 3*time.Second)
-		for sinks[0].connCount() < 2 && time.Now().Before(waitRe) {
-			time.Sleep(10 * time.Millisecond)
+		sinks[0].mu.Lock()
+		sinks[0].limit = m
+		sinks[0].mu.Unlock()
+		balancer.VerifReplacePools(e, []string{sinks[0].addr(), sinks[1].addr()})
+		waitM := time.Now().Add(timerBudget)
+		for sinks[0].frameCount() < m && time.Now().Before(waitM) {
+			time.Sleep(5 * time.Millisecond)
 		}
-		for _, s := range sinks {
-			s.setStalled(false)
-		}
+		time.Sleep(400 * time.Millisecond) // the sender fills the kernel buffers and blocks
+		sinks[0].resetAll()
+		sinks[0].setStalled(false)
 	case 2:
 		k := r.Range(thr, 3*thr)
 		desc = append(desc, fmt.Sprintf("burst=%d reset", k))
@@ -965,6 +993,14 @@ func runL2(seed uint64, idx int, o *out, tier string) {
 	o.Op("e2e scen=%d %s", scen, strings.Join(desc, " ; "))
 	o.Stat("l2.pushes", int64(len(pushes)))
 
+	// the byte/order/duplicate oracle on everything the sinks received; each signature is reported once per trial
+	reported := map[string]bool{}
+	rviol := func(sig, f string, a ...any) {
+		if !reported[sig] {
+			reported[sig] = true
+			o.Viol(sig, f, a...)
+		}
+	}
 	received := func() (data map[uint32]frameRec, reports int64, viol bool) {
 		data = map[uint32]frameRec{}
 		for si, s := range sinks {
@@ -974,7 +1010,7 @@ func runL2(seed uint64, idx int, o *out, tier string) {
 				if len(p) > 0 && p[0] != dataMagic {
 					v, why := decodeReport(append(binary.LittleEndian.AppendUint32(nil, uint32(len(p))), p...), hostTag)
 					if v < 0 {
-						o.Viol("e2e-bytes", "sink %d got a frame that is neither an accepted packet nor a would-block report: %s", si, why)
+						rviol("e2e-bytes", "sink %d got a frame that is neither an accepted packet nor a would-block report: %s", si, why)
 						viol = true
 						continue
 					}
@@ -982,22 +1018,22 @@ func runL2(seed uint64, idx int, o *out, tier string) {
 					continue
 				}
 				if len(p) < 5 {
-					o.Viol("e2e-bytes", "sink %d got a %d byte frame that was never accepted", si, len(p))
+					rviol("e2e-bytes", "sink %d got a %d byte frame that was never accepted", si, len(p))
 					viol = true
 					continue
 				}
 				q := binary.LittleEndian.Uint32(p[len(p)-4:])
 				if int(q) >= len(pushes) || !bytes.Equal(pushes[q].body, p) {
-					o.Viol("e2e-bytes", "sink %d got a frame that is not byte-for-byte an accepted packet (seq %d)", si, q)
+					rviol("e2e-bytes", "sink %d got a frame that is not byte-for-byte an accepted packet (seq %d)", si, q)
 					viol = true
 					continue
 				}
 				if _, dup := data[q]; dup {
-					o.Viol("e2e-duplicate", "packet seq %d was delivered twice", q)
+					rviol("e2e-duplicate", "packet seq %d was delivered twice (sink %d connection %d, first copy on connection %d; scenario %d: %s)", q, si, f.conn, data[q].conn, scen, strings.Join(desc, " ; "))
 					viol = true
 				}
 				if l, ok := last[f.conn]; ok && int64(q) <= l {
-					o.Viol("e2e-order", "sink %d connection %d got seq %d after seq %d", si, f.conn, q, l)
+					rviol("e2e-order", "sink %d connection %d got seq %d after seq %d", si, f.conn, q, l)
 					viol = true
 				}
 				last[f.conn] = int64(q)
@@ -1007,7 +1043,7 @@ func runL2(seed uint64, idx int, o *out, tier string) {
 			badKey := s.badKey
 			s.mu.Unlock()
 			if badKey > 0 {
-				o.Viol("e2e-bytes", "sink %d: %d connections carried bytes that are not the reconnect key followed by length-framed packets", si, badKey)
+				rviol("e2e-bytes", "sink %d: %d connections carried bytes that are not the reconnect key followed by length-framed packets", si, badKey)
 				viol = true
 			}
 		}
@@ -1108,7 +1144,7 @@ func runL2(seed uint64, idx int, o *out, tier string) {
 			if bad || time.Now().After(deadline) {
 				break
 			}
-			if drained && uint64(len(data))+st.WriteErrors >= st.ForwardedPackets && time.Since(quietSince) > 400*time.Millisecond {
+			if drained && (scen == 5 || uint64(len(data))+st.WriteErrors >= st.ForwardedPackets) && time.Since(quietSince) > 600*time.Millisecond {
 				break
 			}
 			time.Sleep(20 * time.Millisecond)
@@ -1118,6 +1154,24 @@ func runL2(seed uint64, idx int, o *out, tier string) {
 		lost := int64(st.ForwardedPackets) - int64(len(data))
 		if st.ForwardedPackets+st.DroppedPackets != uint64(len(pushes)) || st.DroppedPackets != 0 {
 			o.Viol("e2e-uncounted", "%d packets handed in, forwarded=%d dropped=%d (the buffers never filled)", len(pushes), st.ForwardedPackets, st.DroppedPackets)
+		} else if scen == 5 {
+			// packets accepted by the kernel but not read before the reset are lost in TCP; their bytes cannot exceed the
+			// sender's send-buffer limit (+ the small fixed receive buffer); each counted write error gives up one more packet
+			var lostBytes int64
+			var miss []string
+			for _, p := range pushes {
+				if _, ok := data[p.seq]; !ok {
+					lostBytes += int64(len(p.body) + c.PktHeadLen)
+					if len(miss) < 12 {
+						miss = append(miss, fmt.Sprint(p.seq))
+					}
+				}
+			}
+			o.Stat("l2.scen5.lost-packets", lost)
+			if bound := inflightBound(); bound > 0 && lostBytes > bound+int64(st.WriteErrors)*int64(c.PktBodyMax+c.PktHeadLen) {
+				o.Viol("e2e-lost", "%d accepted packets (%d bytes, first missing seq: %s) never reached the upstream after a connection reset inside a batch; at most %d bytes can have been in flight on the reset connection and %d write errors were counted (scenario 5: %s)",
+					lost, lostBytes, strings.Join(miss, ","), bound, st.WriteErrors, strings.Join(desc, " ; "))
+			}
 		} else if scen == 4 && st.WriteErrors == 0 && lost > 0 {
 			// the kernel accepted a write on the reset connection (not observed on Linux loopback): TCP loss, outside the property
 			o.Stat("l2.scen4.tcp-silent-loss", 1)
@@ -1164,6 +1218,25 @@ func runL2(seed uint64, idx int, o *out, tier string) {
 
 // every 8th case is a live (layer 2) trial; the layer depends on the index only, so `-only` replays are self-contained
 func isLive(i int) bool { return i%8 == 7 }
+
+// inflightBound: upper bound for the payload bytes a loopback TCP connection can hold between a blocked writer and a
+// reader that stopped reading with a fixed small receive buffer: the send-buffer limit (third field of tcp_wmem) plus slack.
+// 0 = unknown (the loss bound is then not evaluated).
+func inflightBound() int64 {
+	b, err := os.ReadFile("/proc/sys/net/ipv4/tcp_wmem")
+	if err != nil {
+		return 0
+	}
+	f := strings.Fields(string(b))
+	if len(f) != 3 {
+		return 0
+	}
+	v, err := strconv.ParseInt(f[2], 10, 64)
+	if err != nil || v <= 0 {
+		return 0
+	}
+	return v + 512*1024
+}
 
 func caseRng(seed uint64, i int) *verifx.Rng {
 	return verifx.NewRng(seed*0x9E3779B97F4A7C15 + uint64(i)*0xBF58476D1CE4E5B9 + 1)
